@@ -208,7 +208,9 @@ CLAIMS["C10"] = ("Props/C10 (Lean 4) + refinement: in the reference loop every r
                  "Moves/drops: K2 drop counters (C19 program).",
                  NOTE_COMMON + "printCode is the model's printer; that it equals the real expansion token for token is what K1 compares on every run; rustc's move semantics are outside Lean (partial).",
                  "Lean 4 refinement + once-only theorems on the reference loop; K1 marker oracle; K2 event lists", "§7 C10")
-CLAIMS["C16"] = ("Props/C16 (Lean 4, ∀ contexts): the joiner form of every step (custom joiner applied exactly once iff >1 active branches, to "
+CLAIMS["C16"] = ("Props/C16 (Lean 4, ∀ contexts): custom_joiner_once_per_joined_step - in the printed expansion an identifier written only inside "
+                 "custom_joiner(j) occurs once per step with more than one active branch (times its count in j) and nowhere else, for every program, "
+                 "macro kind and futures path; the joiner form of every step (custom joiner applied exactly once iff >1 active branches, to "
                  "the active branches' chains in branch order; default tuple / P::join!); operands are `move ||` closures iff lazy ∧ multi; "
                  "option defaults; transpose_results(false) scrutinises every step with match Ok/Err; every futures item prints the configured "
                  "path. 'Any order and subset, each at most once' is a theorem about the parser model (Lemmas/OptionParse: the option loop — rounds "
